@@ -89,11 +89,12 @@ fn knobs_for(prop: &str) -> Knobs {
         bus: vec![BUS_INIT],
         avoid_overlap: true,
         odd_targets: false,
+        odd_ea: false,
     };
     match prop {
         "C05" | "C06" => Knobs { uppers: vec![0, 0, 0x01, 0x80, 0xff, 0x5a], ..base },
         "C08" => Knobs { uppers: vec![0x00, 0x01, 0x7f, 0x80, 0xff, 0x5a, 0xa5], pool: Pool::Edges, ..base },
-        "C09" => Knobs { pool: Pool::Edges, ..base },
+        "C09" => Knobs { pool: Pool::Edges, odd_ea: true, ..base },
         "C20" => Knobs { bus: BUS_SETTINGS.to_vec(), pcs: vec![0xffc000, 0x400000, 0x41a000, 0xffe100, 0x5ff000], ..base },
         _ => base,
     }
